@@ -444,6 +444,23 @@ func c07Run(tier, shard string, r *mc.Reporter) {
 		}
 		return true
 	})
+	// paragraph separator pass: every character of bidi class B between two short strings of strong letters and digits
+	if sh == 0 {
+		strong := []rune{'a', 0x05D0, 0x0628, '1'}
+		var parts [][]rune
+		enumTexts(strong, 1, 2, func(_ int, t []rune) bool { parts = append(parts, t); return true })
+		for _, sep := range []rune{0x0A, 0x0D, 0x1C, 0x1D, 0x1E, 0x85, 0x2029} {
+			for _, x := range parts {
+				for _, y := range parts {
+					t := append(append(append([]rune{}, x...), sep), y...)
+					for d := 0; d < 6; d++ {
+						e.check(&c07case{Text: t, Start: 0, End: len(t), Dir: d}, &e.seg)
+					}
+					e.check(&c07case{Text: t, Start: 1, End: len(t), Dir: 0}, &e.seg)
+				}
+			}
+		}
+	}
 	// bracket pass: longer texts over letters of three scripts, two bracket pairs and space (whole range)
 	bl := 6
 	if tier == "thorough" {
@@ -524,6 +541,6 @@ func init() {
 		Assumptions: []string{"reference embedding levels from the x/text bidi core applied to each paragraph of the requested sub-range, auto paragraph level for LTR/TTB inputs and level 1 for RTL/BTT (the convention of the library's own bidi call)",
 			"neutral characters: only 'no invented script' is required (the run script is Common or the script of some strong rune of the text)"},
 		Shards: c07ShardList, Run: c07Run, Replay: c07Replay,
-		Bounds: map[string]string{"quick": "texts of length <= 4 over 24 runes; bracket alphabet (8 runes) length 5..6", "thorough": "texts of length <= 4 over 24 runes; bracket alphabet length 5..7"},
+		Bounds: map[string]string{"quick": "texts of length <= 4 over 24 runes; every paragraph separator (bidi class B) between strings of length <= 2 over 4 strong runes; bracket alphabet (8 runes) length 5..6", "thorough": "texts of length <= 4 over 24 runes; bracket alphabet length 5..7"},
 	})
 }
